@@ -318,38 +318,67 @@ func exportCaps(c *Ctx) {
 		pk := w.Pkg("x/" + m + "/types")
 		v := constVal(pk.Types, name)
 		r.Require(v != nil && constant.Compare(v, token.EQL, constant.MakeInt64(20000)), "A5.export-cap", m+"|value", "x/"+m+"/types/types.go", "the export cap of "+m+" is 20000 records per registration", fmt.Sprint(v))
-		// used as the stop condition of the reverse iteration on the export route
+		// used as the stop condition of the reverse iteration on the export route: the route walks the record section
+		// newest-first, and a function on it compares a count with the cap — written as the constant, or as a field of a
+		// collector object that is given the constant where it is made (`&collector{limit: Max}` ... `c.seen == c.limit`)
 		used := false
-		for _, root := range w.Roots["EXPORTGEN:"+m] {
-			for f := range w.Reachable([]*ssa.Function{root}) {
-				if f.Parent() == nil {
-					continue
+		secRec := ""
+		for _, rm := range recMods {
+			if rm.M == m {
+				secRec = rm.SecRec
+			}
+		}
+		reach := w.Reachable(w.Roots["EXPORTGEN:"+m])
+		hasReverse := false
+		isCap := func(v ssa.Value) bool {
+			cst, ok := v.(*ssa.Const)
+			return ok && cst.Value != nil && cst.Value.Kind() == constant.Int && constant.Compare(cst.Value, token.EQL, constant.MakeInt64(20000))
+		}
+		capFields := map[string]bool{} // <struct type>.<field> given the cap constant
+		for f := range reach {
+			if ir.ModuleOf(f) != m || w.IsGenerated(f) {
+				continue
+			}
+			for _, ef := range w.EffectsOf(f) {
+				if ef.Kind == "StoreIter" && strings.Contains(ef.Method, "Reverse") && (ef.Section == secRec || ef.Generic) {
+					hasReverse = true
 				}
-				for _, ret := range ir.Returns(f) {
-					if len(ret.Results) != 1 {
+			}
+			for _, b := range f.Blocks {
+				for _, in := range b.Instrs {
+					if st, ok := in.(*ssa.Store); ok && isCap(st.Val) {
+						if fa, ok := st.Addr.(*ssa.FieldAddr); ok {
+							capFields[ptrElem(fa.X.Type()).String()+"."+ir.FieldName(fa.X.Type(), fa.Field)] = true
+						}
+					}
+				}
+			}
+		}
+		cmpWithCap := false
+		for f := range reach {
+			if ir.ModuleOf(f) != m || w.IsGenerated(f) {
+				continue
+			}
+			for _, b := range f.Blocks {
+				for _, in := range b.Instrs {
+					bo, ok := in.(*ssa.BinOp)
+					if !ok || (bo.Op != token.EQL && bo.Op != token.GEQ) {
 						continue
 					}
-					e := w.ExprOf(ret.Results[0])
-					if e.Op == "bin" && e.Name == "==" && (e.Args[1].Op == "const" && e.Args[1].Name == "20000" || e.Args[0].Op == "const" && e.Args[0].Name == "20000") {
-						// the closure is the callback of a reverse iteration
-						p := f.Parent()
-						for _, b := range p.Blocks {
-							for _, in := range b.Instrs {
-								if call, ok := in.(ssa.CallInstruction); ok {
-									for _, t := range w.CalleesOf(call) {
-										for _, ef := range w.EffectsOf(t) {
-											if ef.Kind == "StoreIter" && strings.Contains(ef.Method, "Reverse") {
-												used = true
-											}
-										}
-									}
-								}
+					for _, o := range []ssa.Value{bo.X, bo.Y} {
+						if isCap(o) {
+							cmpWithCap = true
+						}
+						if u, ok := o.(*ssa.UnOp); ok && u.Op == token.MUL {
+							if fa, ok := u.X.(*ssa.FieldAddr); ok && capFields[ptrElem(fa.X.Type()).String()+"."+ir.FieldName(fa.X.Type(), fa.Field)] {
+								cmpWithCap = true
 							}
 						}
 					}
 				}
 			}
 		}
+		used = hasReverse && cmpWithCap
 		r.Require(used, "A5.export-cap", m+"|use", "", "export walks the records newest-first and stops after exactly the cap", "no reverse iteration stopping at count == 20000 on the export route")
 	}
 }
@@ -379,9 +408,12 @@ func exportCountersRule(c *Ctx, rule string, only map[string]bool) {
 						// every other exported registration field is the stored registration's like-named field
 						n++
 						isStored := func(v *ir.Expr) bool {
-							return v.Op == "field" && v.Name == fname && v.Args[0].Op == "elem" && w.Expand(v.Args[0].Args[0], 1).Any(func(x *ir.Expr) bool {
-								return x.Op == "call" && x.Callee != nil && reachesEffect(c, x.Callee, func(e ir.Effect) bool { return e.Kind == "StoreIter" && e.Section == rm.SecReg })
-							})
+							iter := func(y *ir.Expr) bool {
+								return y.Any(func(x *ir.Expr) bool {
+									return x.Op == "call" && x.Callee != nil && reachesEffect(c, x.Callee, func(e ir.Effect) bool { return e.Kind == "StoreIter" && e.Section == rm.SecReg })
+								})
+							}
+							return v.Op == "field" && v.Name == fname && v.Args[0].Op == "elem" && (iter(v.Args[0].Args[0]) || iter(w.Expand(v.Args[0].Args[0], 1)))
 						}
 						// the per-registration step may be a helper handed the registration: judge the value as its callers instantiate it
 						ok := isStored(v) || liftAll(c, f, v, isStored)
@@ -393,9 +425,13 @@ func exportCountersRule(c *Ctx, rule string, only map[string]bool) {
 						return
 					}
 					isRecords := func(x *ir.Expr) bool {
-						return w.Expand(x, 1).Any(func(z *ir.Expr) bool {
-							return z.Op == "call" && z.Callee != nil && reachesEffect(c, z.Callee, func(e ir.Effect) bool { return e.Kind == "StoreIter" && e.Section == rm.SecRec })
-						})
+						iter := func(y *ir.Expr) bool {
+							return y.Any(func(z *ir.Expr) bool {
+								return z.Op == "call" && z.Callee != nil && reachesEffect(c, z.Callee, func(e ir.Effect) bool { return e.Kind == "StoreIter" && e.Section == rm.SecRec })
+							})
+						}
+						// (as written — the collecting function may gather its result in a way that has no origin expression — or looked into)
+						return iter(x) || iter(w.Expand(x, 1))
 					}
 					switch fname {
 					case rm.Count:
